@@ -350,9 +350,135 @@ def coq_curve_case(idnt, v):
                 else "true")
         parts.append(f"match {call} with Some c => q_within {lo} {hi} "
                      f"(Qabs c) && {sign} | None => false end")
+    # the smoothed-gradient features: the filter is an oracle (its output is
+    # observed here), everything around it is the model's
+    import scipy.ndimage as ndi
+    seen = []
+    o_g = ndi.gaussian_filter1d
+
+    def g1d(a, *ar, **kw):
+        out = o_g(a, *ar, **kw)
+        seen.append((np.array(a, copy=True), np.array(out, copy=True),
+                     kw.get("sigma", ar[0] if ar else None)))
+        return out
+    extra = []
+    try:
+        ndi.gaussian_filter1d = g1d
+        for fname, mk in [("feat_con_apr_flatness", "flat"),
+                          ("feat_con_idt_monotony", "mono")]:
+            del seen[:]
+            val = float(getattr(IF(idnt), fname)())
+            if len(seen) != 1:
+                continue
+            a_in, g_out, sigma = seen[0]
+            GAUSS_SEEN.append((a_in, sigma))
+            if mk == "flat":
+                call = f"q_flatness_value {qlist(g_out)} cp x res"
+                if math.isnan(val):
+                    extra.append(f"match {call} with Some None => true | None "
+                                 "=> true | _ => false end")
+                else:
+                    e = 1e-12
+                    extra.append(
+                        f"match {call} with Some (Some v) => q_within "
+                        f"{qlit(val - e)} {qlit(val + e)} v | _ => false end")
+            elif not math.isinf(val) and not math.isnan(val):
+                lo, hi = preimage(val, 1 / 10)
+                extra.append(f"q_opt_within {lo} {hi} (q_idt_monotony_core "
+                             f"{qlist(g_out)} cp x y)")
+        # spike count / spike area / residual maxima: two filter outputs and
+        # the value of np.std are the oracles' answers
+        o_std = np.std
+        stds = []
+
+        def std(a, *ar, **kw):
+            r = o_std(a, *ar, **kw)
+            stds.append(float(r))
+            return r
+        np.std = std
+        try:
+            for fname in ("feat_bin_apr_spikes_count",
+                          "feat_con_idt_spike_area",
+                          "feat_con_idt_maxima_75perc"):
+                del seen[:]
+                del stds[:]
+                val = float(getattr(IF(idnt), fname)())
+                for a_in, _g, sg in seen:
+                    GAUSS_SEEN.append((a_in, sg))
+                none = "match {} with None => true | Some _ => false end"
+                if fname == "feat_con_idt_maxima_75perc":
+                    if len(seen) > 1:
+                        continue
+                    g11 = qlist(seen[0][1]) if seen else "[]"
+                    call = f"q_maxima_75_core {g11} cp x y fit"
+                    if math.isnan(val):
+                        extra.append(none.format(call))
+                    else:
+                        lo, hi = preimage(val, 2.0)
+                        extra.append(f"q_opt_within {lo} {hi} ({call})")
+                    continue
+                if len(seen) not in (0, 2) or len(stds) != (1 if seen else 0):
+                    continue
+                if not seen:
+                    args = "[] [] 0"
+                else:
+                    (d_in, g11a, _s1), (_d2, g1a, _s2) = seen
+                    sd = stds[0]
+                    d1 = d_in - g11a
+                    d2 = g1a - g11a
+                    probe = np.abs(d2) if fname.startswith("feat_bin") else d1
+                    if sd == 0 or np.min(np.abs(probe - 3 * sd)) \
+                            < 1e-9 * 3 * sd:
+                        continue      # a comparison too close to call exactly
+                    args = f"{qlist(g11a)} {qlist(g1a)} {qlit(sd)}"
+                    extra.append(
+                        f"q_within {qlit(sd * sd * (1 - 1e-9))} "
+                        f"{qlit(sd * sd * (1 + 1e-9))} (q_spike_variance "
+                        f"{qlist(g11a)} {qlist(g1a)} cp x res)")
+                if fname.startswith("feat_bin"):
+                    call = f"q_spikes_count {args} cp x res"
+                    if math.isnan(val):
+                        extra.append(none.format(call))
+                    else:
+                        extra.append(
+                            f"match {call} with Some b => Bool.eqb b "
+                            f"{'true' if val == 1.0 else 'false'} | None => "
+                            "false end")
+                else:
+                    call = f"q_spike_area_core {args} cp x y res"
+                    if math.isnan(val):
+                        extra.append(none.format(call))
+                    else:
+                        lo, hi = preimage(val, 20.0)
+                        extra.append(f"q_opt_within {lo} {hi} ({call})")
+        finally:
+            np.std = o_std
+    finally:
+        ndi.gaussian_filter1d = o_g
+    parts += extra
     return (f"let x := {qlist(x)} in let y := {qlist(y)} in let fit := "
             f"{qlist(fit)} in let cp := {qlit(cp)} in let res := "
             "q_residuals fit y in " + " && ".join(parts))
+
+
+GAUSS_SEEN = []
+
+
+def gauss_assumption(run):
+    """hypothesis of the filter-oracle theorems: the gaussian filter commutes
+    with positive factors (checked bit for bit with powers of two on the
+    arrays the features handed to it)"""
+    import scipy.ndimage as ndi
+    bad = 0
+    for a, sigma in GAUSS_SEEN[:40]:
+        for c in (2.0 ** 10, 2.0 ** -7):
+            u = ndi.gaussian_filter1d(a * c, sigma=sigma)
+            v = ndi.gaussian_filter1d(a, sigma=sigma) * c
+            if not np.array_equal(u, v, equal_nan=True):
+                bad += 1
+    run.obligation("assumption:gaussian-filter-commutes-with-factors",
+                   bad == 0, f"{bad} of {2 * len(GAUSS_SEEN[:40])} filtered "
+                   "arrays differ between filter(c*a) and c*filter(a)")
 
 
 def name_cases(run, exprs, descr):
@@ -386,6 +512,26 @@ def name_cases(run, exprs, descr):
         descr.append(f"get_feature_names({which}, {req})")
         run.case({"which": which, "names": req}, nontrivial=bool(req),
                  kind="names")
+
+
+def tiny_indentation(run):
+    """fitted curves whose contact point (held fixed) leaves an indentation
+    part of one, two, ... points: every feature is NaN or finite, nothing
+    raises"""
+    cols, k = c07.synthetic("hertz_para", 3, n_app=700, n_ret=200, noise=2e-11)
+    for back in (1, 2, 3, 5, 21, 51):
+        idnt = curves.make_indentation(cols, k=k)
+        with warnings.catch_warnings():
+            warnings.simplefilter("ignore")
+            idnt.apply_preprocessing(list(PIPE))
+            x = np.asarray(idnt["tip position"])[:700]
+            p = idnt.get_initial_fit_parameters(model_key="hertz_para")
+            p["contact_point"].set(value=float(0.5 * (x[-back - 1]
+                                                      + x[-back])),
+                                   vary=False)
+            idnt.fit_model(model_key="hertz_para", params_initial=p)
+        oracle(run, f"synthetic:indentation-of-{back}-points", idnt,
+               "fitted-fixed-cp")
 
 
 def type_list_cases(run):
@@ -519,7 +665,9 @@ def check(run):
                     descr.append(f"arithmetic {name} {st}")
                     run.count("coq-arithmetic")
     breakthrough(run)
+    tiny_indentation(run)
     type_list_cases(run)
+    gauss_assumption(run)
     fits.eval_bool_cases(run, "c17_feat", exprs, descr, head=HEAD, chunk=10)
     run.rule = ("curves (synthetic over models, noise, spikes, short/long "
                 "segments; recorded good and bad) x states (fresh, "
